@@ -1,5 +1,5 @@
 from mindsdb_sql.parser.ast.base import ASTNode
-from mindsdb_sql.parser.utils import indent
+from mindsdb_sql.parser.utils import indent, kw_parameters_to_string
 
 
 class CreateAgent(ASTNode):
@@ -31,9 +31,7 @@ class CreateAgent(ASTNode):
         return out_str
 
     def get_string(self, *args, **kwargs):
-        using_ar = [f'model={repr(self.model)}']
-        using_ar += [f'{k}={repr(v)}' for k, v in self.params.items()]
-        using_str = ', '.join(using_ar)
+        using_str = kw_parameters_to_string({'model': self.model, **self.params})
 
         out_str = f'CREATE AGENT {"IF NOT EXISTS " if self.if_not_exists else ""}{self.name.to_string()} USING {using_str}'
         return out_str
@@ -62,8 +60,7 @@ class UpdateAgent(ASTNode):
         return out_str
 
     def get_string(self, *args, **kwargs):
-        set_ar = [f'{k}={repr(v)}' for k, v in self.params.items()]
-        set_str = ', '.join(set_ar)
+        set_str = kw_parameters_to_string(self.params)
 
         out_str = f'UPDATE AGENT {self.name.to_string()} SET {set_str}'
         return out_str
